@@ -40,6 +40,7 @@ class Lifter:
         self.fmmemo = {}
         self.assertions = []     # dicts: {ci, kind:'fn'|'le'|'booltype', ...}
         self.defs = {}           # z3 symbol name -> (list of formulas, set of dep symbol names)
+        self.unknown_hints = []
         self.nbits = []          # (input LE, [output LEs]) per bits.NBits hint
         self.invzero = []        # (input LE, output LE)
         self.sumcalls = []       # (summary record, [input LEs], [output atom ids])
@@ -478,7 +479,11 @@ class Lifter:
                 elif name.endswith('InvZero'):
                     self.invzero.append((ins[0], self.val[h['Wires'][0]]))
                 else:
-                    raise Inconclusive('unknown hint ' + name)
+                    # a hint the lifter has no contract for: its outputs stay free (that is what a dishonest prover gets); queries that
+                    # need the honest value (completeness, concrete evaluation) must look at unknown_hints
+                    self.unknown_hints.append((name, hi))
+                    if not getattr(self, 'free_unknown_hints', False):
+                        raise Inconclusive('unknown hint ' + name)
 
     def run(self):
         P = self.P
@@ -808,6 +813,8 @@ def eval_r1cs(d, inputs, hint_override=None, summary_eval=None):
                 outs = [pow(ins[0], -1, P) if ins[0] else 0]
             elif nm.endswith('verifSummary'):
                 outs = summary_eval(d['Summaries'][ins[0]], ins[1:])
+            elif all((hi, k) in hint_override for k in range(len(h['Wires']))):
+                outs = [0] * len(h['Wires'])
             else:
                 raise Inconclusive('unknown hint ' + nm)
             for k, w in enumerate(h['Wires']):
